@@ -12,6 +12,7 @@
 //	sleep      never registers (never touches the socket), lingers until killed
 //	closefd    closes the pre-connected socket without registering, lingers until killed
 //	cfgfail    registers, fails Configure
+//	cfghang    registers, never answers Configure (request timeout), lingers until killed
 //	syncfail   registers, is configured, fails Synchronize
 //	die<k>     like ok, but exits inside the handler of its k-th lifecycle event (no reply)
 //	dieafter<k> like ok, but exits shortly after having answered its k-th lifecycle event
@@ -282,6 +283,9 @@ func (p *plugin) Configure(_ context.Context, config, runtime, version string) (
 	logMu.Unlock()
 	if p.word == "cfgfail" {
 		return 0, errors.New("probe: configuration rejected on purpose")
+	}
+	if p.word == "cfghang" {
+		linger()
 	}
 	return 0, nil
 }
